@@ -90,8 +90,23 @@ def check_history(cfg, hist, expected):
 
 def run_one(ch, env):
     cfg = common.draw_pyramid(ch, allow_deep=True)
+    large = ch.draw(150, kind="large_walk") == 149
+    if large:
+        # now and then a pyramid with a thousand or more seed tiles (size-dependent code paths in the dispatcher):
+        # a full generic pyramid of depth 6 (7 in the thorough tier), or a wide filtered TOAST one
+        if ch.draw(2, kind="large_filtered") == 1:
+            m = (3, 5, 11)[ch.draw(3, kind="large_reject_mod")]
+            rejects = {Pos(6, x, y) for x in range(64) for y in range(64) if (x * 7 + y * 13) % m == 0}
+            rejects.add(Pos(2, ch.draw(4, kind="large_reject_x"), ch.draw(4, kind="large_reject_y")))
+            cfg = common.PyrConfig("filtered", 6, None, rejects)
+        else:
+            cfg = common.PyrConfig("generic", 7 if (common.thorough() and ch.draw(2, kind="large_depth7")) else 6, None, set())
     workers = common.draw_workers(ch)
+    if large:
+        workers = min(workers, 4)
     nyield = ch.draw(4, kind="cb_yields")
+    if large:
+        nyield = 0
     expected = cfg.live_parents()
     res = {"config": dict(cfg.describe(), workers=workers, cb_yields=nyield, n_expected=len(expected)),
            "extra": {"kind_" + cfg.kind: 1, "workers_%d" % workers: 1, "with_apex": int(cfg.apex is not None)}}
@@ -113,7 +128,9 @@ def run_one(ch, env):
         res["digest"] = "serial"
         return res
 
-    sim = Sim(ch, step_cap=40000)
+    sim = Sim(ch, step_cap=900000 if large else 40000)
+    if large:
+        res["extra"]["large_walk"] = 1
     res["config"].update(common.sched_config(sim))
     rec = Recorder(sim, nyield)
     pyr = cfg.build()
